@@ -1,3 +1,26 @@
-Require Import PonyV.Base.PyBase PonyV.Model.C07Base PonyV.Model.C07Fmt PonyV.Gen.C07Codec PonyV.Model.C07Codec.
+(* Witnesses for the known findings of C07 (known_findings/C07.json) that concern modelled code. *)
+Require Import PonyV.Base.PyBase PonyV.Model.C07Base PonyV.Model.C07Fmt PonyV.Gen.C07Codec PonyV.Model.C07Codec
+               PonyV.Proofs.C07Digits PonyV.Proofs.C07Proofs.
+(* C07Corr: the checkers of the correspondence run; required here so that they are rebuilt with the cone whenever Gen changes *)
 Require PonyV.Model.C07Corr.
+
+(* SQLite time attributes: while the translated sql2py returns `dt.datetime.time()` (AttributeError inside a bare except),
+   EVERY stored time comes back as the raw string.  The flag is computed from the code translated on this run. *)
+Theorem C07_time_reload_refuted :
+  time_reloads_as_str = true -> forall p t, exists s, reload_time p t = RStr s.
+Proof. exact time_reload_refuted. Qed.
+Print Assumptions C07_time_reload_refuted.
+
+(* SQLite date attributes: date(999, 12, 31) is written as '999-12-31' (strftime does not pad the year) and read back as that string *)
+Theorem C07_date_below_1000_refuted :
+  valid_date (mk_date 999 12 31) /\ reload_date (mk_date 999 12 31) = RStr [57; 57; 57; 45; 49; 50; 45; 51; 49].
+Proof. exact date_below_1000_refuted. Qed.
+Print Assumptions C07_date_below_1000_refuted.
+
+(* Decimal(.., 2): 1.239 stays 1.239 in the writing session, later sessions read 1.24 *)
+Theorem C07_decimal_unrounded_refuted :
+  dec_reload 2 (1239, -3) = (124, -2) /\ dec_eqb (dec_reload 2 (1239, -3)) (1239, -3) = false.
+Proof. exact decimal_unrounded_refuted. Qed.
+Print Assumptions C07_decimal_unrounded_refuted.
+
 Definition C07_flags : bool := Eval vm_compute in time_reloads_as_str.
